@@ -8,22 +8,29 @@ META = {
     "property_id": "C11",
     "level": "model_checking",
     "technique": "TLA+ spec (Editing/EditingSys: abstract documents, one action per public editing call, ghost state, "
-                 "declarative judge) model-checked by TLC; TLC-generated call sequences replayed into lopdf; recorded "
-                 "lopdf programs validated call by call by Trace_Editing",
+                 "declarative judge on objects, page bytes and page operation sequences) model-checked by TLC; TLC-generated "
+                 "call sequences replayed into lopdf; recorded lopdf programs validated call by call by Trace_Editing",
     "text": "The specification models a PDF document as an object graph with a page tree (catalog, Pages nodes with "
             "Kids/Count/Parent, pages whose Contents is a single reference, an array of 1 or 2, an array naming one stream "
-            "twice, a reference to an array, or missing; Resources on the root, on the page, on both, inline or behind a "
-            "reference; annotation arrays; an Info dictionary; a stream whose dictionary references another object) and has "
+            "twice, a reference to an array, shared by two pages, not decodable, or missing; Resources on the root, on the "
+            "page, on both, inline or behind a reference, one object shared by two pages, an XObject category that already "
+            "has the name X<next object number>; annotation arrays; an Info dictionary; a stream whose dictionary references another object) and has "
             "one action per public call (new_object_id, add_object, set_object, delete_object, remove_object, prune_objects, "
             "delete_pages, renumber_objects, compress, decompress, add_page_contents, change_page_content, "
             "change_content_stream, get_or_create_resources, add_xobject, add_graphics_state, build_outline, save, "
-            "save+load) with ghost state (issued ids, the content every page must show). The declarative layer judges "
+            "save+load, and the compositions of parser_aux.rs add_to_page_content, insert_image, insert_form_object in the "
+            "order the code performs their steps, error paths included) with ghost state (issued ids, the bytes and the "
+            "operation sequence every page must show; operation sequences are observed through Content::decode and kept "
+            "abstract as tokens). For the three compositions the judge demands: the stored stream has a fresh id; the "
+            "edited page decodes to old..., new... / old..., q, cm, Do /X, Q / q, old..., Q, Do /X; the page can use the "
+            "new XObject under the name drawn and no page loses any resource it could use before (also not one of the "
+            "same name); every other page keeps its content; an error leaves all content as it was. The declarative layer judges "
             "every step: FreshIds, Frame (nothing reachable outside the call's documented write set changes), NoStaleRef, "
             "PruneExact, CountsOk, ContentOk, ResMonotone (resources in effect by the ISO nearest-ancestor rule), MaxIdOk "
             "and the post-state the abstract model prescribes. The impl-shaped layer transcribes lopdf's algorithms with "
             "switches for the confirmed deviations; TLC explores every call sequence up to the depth bound from every "
-            "starting document both as the code is (no violation since the five fix: commits) and with the repaired defects "
-            "seeded back (the only violations are the five former findings). "
+            "starting document as the code is (the only violations are the listed findings), with the five repaired defects "
+            "seeded back (additionally exactly the five former findings) and with every confirmed deviation repaired (none). "
             "Sampled behaviours (breadth-first and random simulation to depth 10) are stepped through the real lopdf API "
             "and seeded random programs of 5-40 calls on generated documents and on documents loaded from bytes saved by "
             "lopdf are recorded; Trace_Editing binds every logged call to its action, checks effect and invariants on the "
@@ -33,8 +40,10 @@ META = {
             "trailer and of objects still reachable from it; 'no operation other than an explicit deletion alters an "
             "object' is read with each call's documented write set; calls are judged only while the document is sound "
             "(no reachable dangling reference), a step that breaks this is reported once. Caller errors are outside the "
-            "domain: set_object above max_id, replacing or deleting page-tree nodes through the object-level calls, "
-            "content streams shared between pages. Renumbering is summarised (C10 checks the renaming itself); the byte "
+            "domain: set_object above max_id, replacing or deleting page-tree nodes or the objects of a page's Contents "
+            "through the object-level calls. The clauses on operation sequences apply where the decoder reads the whole "
+            "old content (content it reads only in part is malformed input). A Resources object shared by two pages is the "
+            "edited page's own entry: adding to it is inside the write set and only grows the other page's resources. Renumbering is summarised (C10 checks the renaming itself); the byte "
             "level of save/load belongs to C01-C03 (a load that changes objects is counted as drift here). Exhaustive only "
             "within the model bounds; beyond that sampled.",
     "bins": ["c11"],
@@ -44,11 +53,13 @@ META = {
 
 OPS = ["NewObjectId", "AddObject", "Replace", "DeleteObject", "RemoveAnnot", "Prune", "DeletePages", "Renumber",
        "Compress", "Decompress", "AddPageContents", "ChangePageContent", "ChangeContentStream",
-       "GetOrCreateResources", "AddXObject", "AddGraphicsState", "BuildOutline", "Save", "SaveLoad"]
-# violation tags the model produces "as the code is" (the Allowed constant of the cfgs): none since the five fix: commits
-MODEL_FINDINGS = []
+       "GetOrCreateResources", "AddXObject", "AddGraphicsState", "BuildOutline", "Save", "SaveLoad",
+       "AddToPageContent", "InsertImage", "InsertFormObject"]
+# violation tags the model produces "as the code is" (the Allowed constant of the cfgs): the known findings
+MODEL_FINDINGS = ["content.sharedStream", "resources.nameCollision"]
 # ... and with the repaired defects seeded back (Editing!DevSeeded / FormerFindings): the negative control of the Judge
-FORMER_FINDINGS = ["delete.array.dup", "delete.streamdict", "delete.trailer", "resources.shadow", "contents.refToArray"]
+FORMER_FINDINGS = ["delete.array.dup", "delete.streamdict", "delete.trailer", "resources.shadow", "contents.refToArray",
+                   "content.streamBoundary"]
 DRIFT = ("drift.",)
 
 
@@ -60,15 +71,16 @@ def is_drift(t):
 def model_runs(tier):
     if tier == "quick":
         return [("MC_Editing_quick_all.cfg", 4), ("MC_Editing_quick_content.cfg", 3), ("MC_Editing_quick_res.cfg", 3),
-                ("MC_Editing_quick_obj.cfg", 4)]
+                ("MC_Editing_quick_obj.cfg", 3), ("MC_Editing_quick_ins.cfg", 3)]
     return [("MC_Editing_thorough_all.cfg", 6), ("MC_Editing_thorough_content.cfg", 3), ("MC_Editing_thorough_content2.cfg", 2),
-            ("MC_Editing_thorough_res.cfg", 3), ("MC_Editing_thorough_obj.cfg", 4), ("MC_Editing_thorough_starts.cfg", 4)]
+            ("MC_Editing_thorough_res.cfg", 3), ("MC_Editing_thorough_obj.cfg", 4), ("MC_Editing_thorough_starts.cfg", 4),
+            ("MC_Editing_thorough_ins.cfg", 4)]
 
 
 def run_models(chk, tier):
-    """every cfg explores both `as the code is` and `with the repaired defects seeded back`; the invariant Refines fails
-    (ToolError) if the design as the code is violates a clause outside the listed findings (there are none), or the
-    seeded design one outside the five former findings"""
+    """every cfg explores `as the code is`, `with the repaired defects seeded back` and `everything repaired`; the invariant
+    Refines fails (ToolError) if the design as the code is violates a clause outside the listed findings, the seeded
+    design one outside those and the five former findings, or the repaired design any clause at all"""
     runs = model_runs(tier)
 
     def one(x):
@@ -104,25 +116,30 @@ def run_models(chk, tier):
 
 
 def model_vacuity(cases):
-    """(B) every action was taken, both variants were explored, exactly the listed findings (none) are reached as the
-    code is and exactly the five former findings with the repaired defects seeded back (computed from the printed
-    behaviours; -coverage is unusably slow here)"""
-    ops, asis_tags, rep_tags = set(), set(), set()
+    """(B) every action was taken, all variants were explored, exactly the listed findings are reached as the code is,
+    the five former findings (besides the listed ones) with the repaired defects seeded back, and nothing at all with
+    everything repaired (computed from the printed behaviours; -coverage is unusably slow here)"""
+    ops = set()
+    tags = {"asis": set(), "seeded": set(), "repaired": set()}
     for c in cases:
         for st in c["calls"]:
             ops.add(st["c"]["op"])
             for t in st["v"]:
                 if not is_drift(t):
-                    (asis_tags if c["asis"] else rep_tags).add(t)
+                    tags[c["mode"]].add(t)
     missing = [o for o in OPS if o not in ops]
     if missing:
         raise vlib.ToolError("vacuous model run: actions never taken in a printed behaviour: %s" % missing)
-    if rep_tags != set(FORMER_FINDINGS):
-        raise vlib.ToolError("model with the repaired defects seeded back reaches %s, expected exactly %s" % (sorted(rep_tags), FORMER_FINDINGS))
-    if asis_tags != set(MODEL_FINDINGS):
-        raise vlib.ToolError("as-the-code-is model reaches %s, expected exactly %s" % (sorted(asis_tags), MODEL_FINDINGS))
-    if not any(not c["asis"] for c in cases) or not any(c["asis"] for c in cases):
-        raise vlib.ToolError("vacuous: no as-the-code-is / no seeded behaviour printed")
+    if tags["seeded"] - set(MODEL_FINDINGS) != set(FORMER_FINDINGS):
+        raise vlib.ToolError("model with the repaired defects seeded back reaches %s, expected the listed findings and exactly %s"
+                             % (sorted(tags["seeded"]), FORMER_FINDINGS))
+    if tags["asis"] != set(MODEL_FINDINGS):
+        raise vlib.ToolError("as-the-code-is model reaches %s, expected exactly %s" % (sorted(tags["asis"]), MODEL_FINDINGS))
+    if tags["repaired"]:
+        raise vlib.ToolError("the model with every deviation repaired violates %s" % sorted(tags["repaired"]))
+    for m in tags:
+        if not any(c["mode"] == m for c in cases):
+            raise vlib.ToolError("vacuous: no behaviour of variant %s printed" % m)
 
 
 def norm(x):
@@ -144,7 +161,7 @@ def pick_cases(cases, cap, rnd):
     buckets = {}
     for c in cases:
         last = c["calls"][-1] if c["calls"] else {"v": [], "c": {"op": "-"}}
-        key = (c["cfg"], c["asis"], tuple(sorted(last["v"])), last["c"]["op"])
+        key = (c["cfg"], c["mode"], tuple(sorted(last["v"])), last["c"]["op"])
         buckets.setdefault(key, []).append(c)
     keys = sorted(buckets, key=lambda k: json.dumps(k))
     per = max(1, cap // max(1, len(keys)))
@@ -205,10 +222,40 @@ def shape_of(objs, page):
     return "other"
 
 
+def content_ids(objs, page):
+    """(ids on the page's Contents chain, stream ids) by the check's own reading of the projected objects"""
+    c = objs.get(page, {}).get("v", {}).get("Contents") if objs.get(page, {}).get("k") == "dict" else None
+    chain, arr = [], None
+    if c is None:
+        return [], []
+    if c["k"] == "ref":
+        chain.append(c["n"])
+        t = objs.get(c["n"], {})
+        if t.get("k") == "arr":
+            arr = t["v"]
+        else:
+            return chain, [c["n"]]
+    elif c["k"] == "arr":
+        arr = c["v"]
+    ids = [e["n"] for e in (arr or []) if e.get("k") == "ref"]
+    return chain + ids, ids
+
+
+def has_key(x, key):
+    if isinstance(x, dict):
+        return key in x or any(has_key(v, key) for v in x.values())
+    if isinstance(x, list):
+        return any(has_key(v, key) for v in x)
+    return False
+
+
 def input_classes(recs):
-    """classes of the judged INPUTS (anti-vacuity bookkeeping, independent of verdicts)"""
+    """classes of the judged INPUTS (anti-vacuity bookkeeping, independent of verdicts): starting documents, calls, and
+    for the calls of parser_aux.rs the situation of the edited page when the call is made (the check replays the logged
+    object deltas itself)"""
     cl = set()
     n = 0
+    objs, pages, max_id = {}, [], 0
     for i, r in enumerate(recs):
         if r["ev"] == "Start":
             objs = {o[0]: o[1] for o in r["objects"]}
@@ -229,12 +276,54 @@ def input_classes(recs):
                 cl.add("loaded")
             if any(o[1].get("k") == "stream" and o[1]["z"] for o in r["objects"]):
                 cl.add("compressed-stream")
+            res = [objs[p]["v"].get("Resources") for p in r["pages"] if objs.get(p, {}).get("k") == "dict"]
+            refs = [x["n"] for x in res if x and x["k"] == "ref"]
+            if len(refs) != len(set(refs)):
+                cl.add("resources:shared")
             n = 0
         elif r["ev"] == "Call":
             n += 1
-            cl.add("op:" + r["c"]["op"])
+            op = r["c"]["op"]
+            cl.add("op:" + op)
             if n >= 20:
                 cl.add("program>=20")
+            if op == "DeletePages":          # argument lists: repeats, out of range, 0, unsorted
+                nums = r["c"]["nums"]
+                if len(nums) != len(set(nums)) and any(1 <= x <= len(pages) and nums.count(x) > 1 for x in nums):
+                    cl.add("deletepages:repeat")
+                if any(x > len(pages) for x in nums):
+                    cl.add("deletepages:out-of-range")
+                if 0 in nums:
+                    cl.add("deletepages:zero")
+                if nums != sorted(nums):
+                    cl.add("deletepages:unsorted")
+                if any(1 <= x <= len(pages) for x in nums) and len(r["pages"]) >= 1 and any(
+                        o[1].get("k") == "dict" and o[1]["v"].get("Type", {}).get("v") == "Pages" and "Parent" in o[1]["v"]
+                        for o in objs.items()):
+                    cl.add("deletepages:nested-tree")
+            if op in ("InsertImage", "InsertFormObject", "AddToPageContent") and r["c"]["id"] in pages:
+                p = r["c"]["id"]
+                pre = "insert-on:" if op != "AddToPageContent" else "addto-on:"
+                cl.add(pre + "contents-" + shape_of(objs, p))
+                chain, streams = content_ids(objs, p)
+                if any(q != p and set(content_ids(objs, q)[0]) & set(chain) for q in pages):
+                    cl.add(pre + "shared-contents")
+                data = [b for sid in streams for b in objs.get(sid, {}).get("c", [])]
+                if bytes(data).split() and b"BI" in bytes(data).split():
+                    cl.add(pre + "undecodable")
+                if data and bytes(data[-1:]) not in (b"\n", b" ", b"\r", b"\t"):
+                    cl.add(pre + "no-trailing-space")
+                if op != "AddToPageContent" and has_key([o for o in objs.values() if o.get("k") == "dict"], "X%d" % (max_id + 1)):
+                    cl.add(pre + "name-taken")
+                rp = objs.get(p, {}).get("v", {}).get("Resources")
+                if rp and rp["k"] == "ref" and any(q != p and objs.get(q, {}).get("v", {}).get("Resources") == rp for q in pages):
+                    cl.add(pre + "shared-resources")
+            for sid, o in r["set"]:
+                objs[sid] = o
+            for sid in r["del"]:
+                objs.pop(sid, None)
+        if r["ev"] in ("Start", "Call"):
+            pages, max_id = r["pages"], r["max_id"]
     return cl
 
 
@@ -306,32 +395,192 @@ def synthetic_program():
     er = [[3, [["Font", "F1"]]]]
 
     def call(op, **kw):
-        c = {"op": op, "id": 0, "x": 0, "name": "", "b": [], "o": {"k": "null"}, "nums": [], "fmt": ""}
+        c = {"op": op, "id": 0, "x": 0, "name": "", "b": [], "o": {"k": "null"}, "nums": [], "fmt": "", "ops": []}
         c.update(kw)
         return c
 
     def rec(c, res, set_, del_, max_id, pc, er_=er, tr=trailer):
         return {"ev": "Call", "prog": 0, "c": c, "res": res, "set": set_, "del": del_, "trailer": tr, "max_id": max_id,
-                "bms": [], "pages": [3], "pc": pc, "er": er_}
+                "bms": [], "pages": [3], "pc": pc, "po": [[3, [pc[0][1]] if pc[0][1] else []]], "xn": NOXN, "er": er_}
 
     ok = {"ok": True, "id": 0, "ids": []}
     start = {"ev": "Start", "prog": 0, "objects": objs, "trailer": trailer, "max_id": 7, "bms": [], "pages": [3],
-             "pc": [[3, [65]]], "er": er, "content": [[3, [65]]]}
+             "pc": [[3, [65, 10]]], "po": [[3, [[65]]]], "er": er, "content": [[3, [65, 10]]]}
     page2 = D(Type=N("Page"), Parent=R(2), Contents=R(4), Annots=A(), Resources=D(Font=D(F1=R(7))))
     page3 = D(Type=N("Page"), Parent=R(2), Contents=A(R(4), R(9)), Annots=A(), Resources=D(Font=D(F1=R(7))))
     page4 = D(Type=N("Page"), Parent=R(2), Contents=A(R(4), R(9)), Annots=A(),
               Resources=D(Font=D(F1=R(7)), XObject=D(X1=R(4))))
     prog = [
         start,
-        rec(call("AddObject", o=I(7)), {"ok": True, "id": 8, "ids": []}, [[8, I(7)]], [], 8, [[3, [65]]]),
-        rec(call("DeleteObject", id=5), ok, [[3, page2]], [5], 8, [[3, [65]]]),
-        rec(call("AddPageContents", id=3, b=[66]), ok, [[3, page3], [9, S([66])]], [], 9, [[3, [65, 66]]]),
-        rec(call("AddXObject", id=3, name="X1", x=4), ok, [[3, page4]], [], 9, [[3, [65, 66]]],
+        rec(call("AddObject", o=I(7)), {"ok": True, "id": 8, "ids": []}, [[8, I(7)]], [], 8, [[3, [65, 10]]]),
+        rec(call("DeleteObject", id=5), ok, [[3, page2]], [5], 8, [[3, [65, 10]]]),
+        rec(call("AddPageContents", id=3, b=[66]), ok, [[3, page3], [9, S([66])]], [], 9, [[3, [65, 10, 66, 10]]]),
+        rec(call("AddXObject", id=3, name="X1", x=4), ok, [[3, page4]], [], 9, [[3, [65, 10, 66, 10]]],
             er_=[[3, [["Font", "F1"], ["XObject", "X1"]]]]),
-        rec(call("Prune"), {"ok": True, "id": 0, "ids": [8]}, [], [8], 9, [[3, [65, 66]]],
+        rec(call("Prune"), {"ok": True, "id": 0, "ids": [8]}, [], [8], 9, [[3, [65, 10, 66, 10]]],
             er_=[[3, [["Font", "F1"], ["XObject", "X1"]]]]),
     ]
     return prog
+
+
+NOXN = {"s": "", "b": []}
+
+
+def B(text):
+    return list(text.encode())
+
+
+def J(*streams):
+    """a page's content: the data of each of its streams followed by a newline"""
+    return [b for t in streams for b in B(t + "\n")]
+
+
+def synthetic_inserts():
+    """a hand-made conforming program of add_to_page_content / insert_image / insert_form_object as an implementation
+    without the known findings logs it (the name X10 is taken: the image is registered as X11)"""
+    res_root = D(Font=D(F1=R(7)), XObject=D(X10=R(5)))
+    img = S([1, 2], Type=N("XObject"), Subtype=N("Image"))
+    form = S(B("0 0 m\nS"), Type=N("XObject"), Subtype=N("Form"))
+    objs = [[1, D(Type=N("Catalog"), Pages=R(2))],
+            [2, D(Type=N("Pages"), Kids=A(R(3), R(8)), Count=I(2), Resources=res_root)],
+            [3, D(Type=N("Page"), Parent=R(2), Contents=R(4))], [4, S(B("A\n"))], [5, S([9], Type=N("XObject"))],
+            [6, S(B("B\n"))], [7, D(Type=N("Font"))], [8, D(Type=N("Page"), Parent=R(2), Contents=R(6))]]
+    trailer = {"Root": R(1)}
+    inh = [["Font", "F1"], ["XObject", "X10"]]
+
+    def call(op, **kw):
+        c = {"op": op, "id": 0, "x": 0, "name": "", "b": [], "o": {"k": "null"}, "nums": [], "fmt": "", "ops": []}
+        c.update(kw)
+        return c
+
+    def rec(c, set_, max_id, pc, po, er, xn=NOXN, ok=True):
+        return {"ev": "Call", "prog": 0, "c": c, "res": {"ok": ok, "id": 0, "ids": []}, "set": set_, "del": [],
+                "trailer": trailer, "max_id": max_id, "bms": [], "pages": [3, 8], "pc": pc, "po": po, "xn": xn, "er": er}
+
+    start = {"ev": "Start", "prog": 0, "objects": objs, "trailer": trailer, "max_id": 8, "bms": [], "pages": [3, 8],
+             "pc": [[3, J("A\n")], [8, J("B\n")]], "po": [[3, [B("A")]], [8, [B("B")]]], "er": [[3, inh], [8, inh]],
+             "content": [[3, J("A\n")], [8, J("B\n")]]}
+    # 1. add_to_page_content(page 3, [q, Q])
+    s1 = rec(call("AddToPageContent", id=3, ops=[B("q"), B("Q")]),
+             [[3, D(Type=N("Page"), Parent=R(2), Contents=A(R(4), R(9)))], [9, S(B("q\nQ"))]], 9,
+             [[3, J("A\n", "q\nQ")], [8, J("B\n")]], [[3, [B("A"), B("q"), B("Q")]], [8, [B("B")]]], [[3, inh], [8, inh]])
+    # 2. insert_image(page 3, image, position (4, 5), size (2, 3)): object 10, registered as X11
+    own3 = D(Font=D(F1=R(7)), XObject=D(X10=R(5), X11=R(10)))
+    c3 = "A\nq\nQ\nq\n2 0 0 3 4 5 cm\n/X11 Do\nQ"
+    s2 = rec(call("InsertImage", id=3, o=img, nums=[2, 3, 4, 5]),
+             [[3, D(Type=N("Page"), Parent=R(2), Contents=R(11), Resources=own3)], [10, img], [11, S(B(c3))]], 11,
+             [[3, J(c3)], [8, J("B\n")]], [[3, [B(t) for t in c3.split("\n")]], [8, [B("B")]]],
+             [[3, inh + [["XObject", "X11"]]], [8, inh]], xn={"s": "X11", "b": B("X11")})
+    # 3. insert_form_object(page 8, form): object 12, registered as X12; the single content stream is rewritten
+    own8 = D(Font=D(F1=R(7)), XObject=D(X10=R(5), X12=R(12)))
+    c8 = "q\nB\nQ\n/X12 Do"
+    s3 = rec(call("InsertFormObject", id=8, o=form),
+             [[6, S(B(c8))], [8, D(Type=N("Page"), Parent=R(2), Contents=R(6), Resources=own8)], [12, form]], 12,
+             [[3, J(c3)], [8, J(c8)]], [[3, [B(t) for t in c3.split("\n")]], [8, [B(t) for t in c8.split("\n")]]],
+             [[3, inh + [["XObject", "X11"]]], [8, inh + [["XObject", "X12"]]]], xn={"s": "X12", "b": B("X12")})
+    # 4. add_to_page_content(page 3, [n]): the old content's stream ends with "Q" (no white space); the streams are
+    #    kept apart when the page's content is read
+    c3b = c3 + "\nn"
+    s4 = rec(call("AddToPageContent", id=3, ops=[B("n")]),
+             [[3, D(Type=N("Page"), Parent=R(2), Contents=A(R(11), R(13)), Resources=own3)], [13, S(B("n"))]], 13,
+             [[3, J(c3, "n")], [8, J(c8)]], [[3, [B(t) for t in c3b.split("\n")]], [8, [B(t) for t in c8.split("\n")]]],
+             [[3, inh + [["XObject", "X11"]]], [8, inh + [["XObject", "X12"]]]])
+    return [start, s1, s2, s3, s4]
+
+
+def synthetic_shared():
+    """two pages share one content stream; change_page_content(page 3) gives page 3 a stream of its own"""
+    objs = [[1, D(Type=N("Catalog"), Pages=R(2))], [2, D(Type=N("Pages"), Kids=A(R(3), R(5)), Count=I(2))],
+            [3, D(Type=N("Page"), Parent=R(2), Contents=R(4))], [4, S(B("A\n"))],
+            [5, D(Type=N("Page"), Parent=R(2), Contents=R(4))]]
+    trailer = {"Root": R(1)}
+    start = {"ev": "Start", "prog": 0, "objects": objs, "trailer": trailer, "max_id": 5, "bms": [], "pages": [3, 5],
+             "pc": [[3, J("A\n")], [5, J("A\n")]], "po": [[3, [B("A")]], [5, [B("A")]]], "er": [[3, []], [5, []]],
+             "content": [[3, J("A\n")], [5, J("A\n")]]}
+    c = {"op": "ChangePageContent", "id": 3, "x": 0, "name": "", "b": B("Z\n"), "o": {"k": "null"}, "nums": [], "fmt": "", "ops": []}
+    s1 = {"ev": "Call", "prog": 0, "c": c, "res": {"ok": True, "id": 0, "ids": []},
+          "set": [[3, D(Type=N("Page"), Parent=R(2), Contents=R(6))], [6, S(B("Z\n"))]], "del": [], "trailer": trailer,
+          "max_id": 6, "bms": [], "pages": [3, 5], "pc": [[3, J("Z\n")], [5, J("A\n")]],
+          "po": [[3, [B("Z")]], [5, [B("A")]]], "xn": NOXN, "er": [[3, []], [5, []]]}
+    return [start, s1]
+
+
+def shared_corruptions(prog):
+    p = json.loads(json.dumps(prog))
+    p[1]["set"] = [[4, S(B("Z\n"))]]          # the shared stream is rewritten in place: page 5 changes too
+    p[1]["max_id"] = 5
+    p[1]["pc"] = [[3, J("Z\n")], [5, J("Z\n")]]
+    p[1]["po"] = [[3, [B("Z")]], [5, [B("Z")]]]
+    return [("change_page_content rewrites a stream another page shares", 1, "content.sharedStream", p)]
+
+
+def insert_corruptions(prog):
+    out = []
+
+    def variant(name, idx, tag, edit):
+        p = json.loads(json.dumps(prog))
+        edit(p)
+        out.append((name, idx, tag, p))
+
+    def addto_drops_old(p):      # the page shows only the appended operations
+        p[1]["po"][0][1] = [B("q"), B("Q")]
+    variant("add_to_page_content loses the old operations", 1, "content.ops", addto_drops_old)
+
+    def image_without_cm(p):     # q Do Q without the placement matrix
+        p[2]["po"][0][1] = [t for t in p[2]["po"][0][1] if t != B("2 0 0 3 4 5 cm")]
+    variant("insert_image omits cm", 2, "content.ops", image_without_cm)
+
+    def image_wrong_matrix(p):   # size and position swapped
+        p[2]["po"][0][1] = [B("4 0 0 5 2 3 cm") if t == B("2 0 0 3 4 5 cm") else t for t in p[2]["po"][0][1]]
+    variant("insert_image swaps size and position", 2, "content.ops", image_wrong_matrix)
+
+    def name_collision(p):       # the taken name X10 is used: the inherited X10 is replaced
+        own = D(Font=D(F1=R(7)), XObject=D(X10=R(10)))
+        p[2]["set"][0][1]["v"]["Resources"] = own
+        c3 = "A\nq\nQ\nq\n2 0 0 3 4 5 cm\n/X10 Do\nQ"
+        p[2]["set"][2][1]["c"] = B(c3)
+        p[2]["pc"][0][1] = J(c3)
+        p[2]["po"][0][1] = [B(t) for t in c3.split("\n")]
+        p[2]["xn"] = {"s": "X10", "b": B("X10")}
+        p[2]["er"][0][1] = [["Font", "F1"], ["XObject", "X10"]]
+    variant("insert_image replaces an existing XObject name", 2, "resources.nameCollision", name_collision)
+
+    def not_registered(p):       # the page cannot use the new object
+        p[2]["set"][0][1]["v"]["Resources"] = D(Font=D(F1=R(7)), XObject=D(X10=R(5)))
+        p[2]["xn"] = NOXN
+        p[2]["er"][0][1] = [["Font", "F1"], ["XObject", "X10"]]
+    variant("insert_image does not register the XObject", 2, "effect.InsertImage", not_registered)
+
+    def shadow(p):               # the own Resources dictionary hides the inherited font
+        p[2]["set"][0][1]["v"]["Resources"] = D(XObject=D(X10=R(5), X11=R(10)))
+        p[2]["er"][0][1] = [["XObject", "X10"], ["XObject", "X11"]]
+    variant("insert_image hides an inherited resource", 2, "resources.shadow", shadow)
+
+    def form_order(p):           # Do inside q ... Q
+        p[3]["po"][1][1] = [B("q"), B("B"), B("/X12 Do"), B("Q")]
+    variant("insert_form_object draws inside the saved state", 3, "content.ops", form_order)
+
+    def other_page(p):           # the other page's content stream is rewritten too
+        p[3]["set"].append([11, S(B("Z\n"))])
+        p[3]["pc"][0][1] = J("Z\n")
+        p[3]["po"][0][1] = [B("Z")]
+    variant("insert_form_object alters another page", 3, "content", other_page)
+
+    def error_with_effect(p):    # an error is reported although the content was changed
+        p[3]["res"]["ok"] = False
+    variant("insert_form_object fails but changes the content", 3, "content", error_with_effect)
+
+    def boundary(p):             # the streams are joined without white space: the decoder reads Qn
+        toks = p[4]["po"][0][1]
+        p[4]["po"][0][1] = toks[:-2] + [B("Qn")]
+    variant("add_to_page_content merges two operators", 4, "content.streamBoundary", boundary)
+
+    def stale_id(p):             # the stream is stored under an existing id
+        p[3]["set"] = [s for s in p[3]["set"] if s[0] != 12] + [[5, p[3]["c"]["o"]]]
+        p[3]["set"][1][1]["v"]["Resources"] = D(Font=D(F1=R(7)), XObject=D(X10=R(5), X12=R(5)))
+        p[3]["max_id"] = 11
+    variant("insert_form_object overwrites an existing object", 3, "frame", stale_id)
+    return out
 
 
 def corruptions(prog):
@@ -364,7 +613,7 @@ def corruptions(prog):
 
     def content(p):   # appended content replaces the old one
         p[3]["set"][0][1]["v"]["Contents"] = A(R(9))
-        p[3]["pc"] = [[3, [66]]]
+        p[3]["pc"] = [[3, [66, 10]]]
     variant("old content lost on append", 3, "content", content)
 
     def shadow(p):    # adding an XObject drops the font
@@ -388,7 +637,15 @@ def negative_controls(chk, w):
     vs = judge_records(chk, prog, "c11-neg-base", 1)
     if any(v["v"] not in ("ok", "ok-drift") for v in vs):      # (drift: the as-the-code-is model deletes differently)
         raise vlib.ToolError("the hand-made conforming program is not accepted by Trace_Editing: %s" % vs)
-    cors = corruptions(prog)
+    prog2 = synthetic_inserts()
+    vs2 = judge_records(chk, prog2, "c11-neg-base2", 1)
+    if any(v["v"] not in ("ok", "ok-drift") for v in vs2):     # (drift: the as-the-code-is model picks the taken name)
+        raise vlib.ToolError("the hand-made conforming insert program is not accepted by Trace_Editing: %s" % vs2)
+    prog3 = synthetic_shared()
+    vs3 = judge_records(chk, prog3, "c11-neg-base3", 1)
+    if any(v["v"] not in ("ok", "ok-drift") for v in vs3):
+        raise vlib.ToolError("the hand-made conforming shared-stream program is not accepted by Trace_Editing: %s" % vs3)
+    cors = corruptions(prog) + insert_corruptions(prog2) + shared_corruptions(prog3)
     recs = []
     for _, _, _, p in cors:
         recs += p
@@ -421,10 +678,12 @@ def run(tier):
         "object generations are 0 (lopdf allocates generation 0; the projection refuses others)",
         "calls are judged while the document is sound (no reachable reference to a missing object, every content id names a "
         "stream); a step that breaks this is reported and ends the program",
-        "set_object above max_id, replacing / deleting page-tree nodes or the catalog through object-level calls and content "
-        "streams shared between pages are caller errors outside the domain",
+        "set_object above max_id and replacing / deleting page-tree nodes, the catalog or the objects of a page's Contents "
+        "through object-level calls are caller errors outside the domain",
         "NoStaleRef is required of the trailer and of objects still reachable from it",
-        "stream contents are either shorter than 32 bytes or runs of >= 64 equal bytes (flate pays off exactly on the latter)",
+        "operation sequences are what lopdf's Content::decode reads (C14 checks the decoder); the clauses on them apply where "
+        "it reads the whole old content",
+        "whether compress pays off is left open (the encoding flag of a stream is free in the declarative layer)",
     ]
     quick = tier == "quick"
     w = workdir("c11")
@@ -447,7 +706,7 @@ def run(tier):
     if sum(1 for r in rep if r["ev"] == "Start") != len(chosen):
         raise vlib.ToolError("replay lost cases")
     # (V) recorded programs
-    nprog = 60 if quick else 1500
+    nprog = 90 if quick else 1500
     tr = os.path.join(w, "rec.ndjson")
     run_bin("c11", ["record", "--seed", vlib.seed(), "--n", nprog, "--out", tr])
     recs = read_ndjson(tr)
@@ -487,7 +746,14 @@ def run(tier):
     cl = input_classes(recs)
     need = {"contents:ref", "contents:array", "contents:refToArray", "contents:missing", "resources:own",
             "resources:inherited-or-none", "annots", "pages>=3", "nested-tree", "loaded", "loaded-xref-stream", "compressed-stream",
-            "program>=20"} | {"op:" + o for o in OPS}
+            "program>=20", "resources:shared",
+            "deletepages:repeat", "deletepages:out-of-range", "deletepages:zero", "deletepages:unsorted", "deletepages:nested-tree",
+            # the calls of parser_aux.rs: every Contents shape, shared / not decodable content, a taken name, a shared
+            # Resources object, old content that ends without white space
+            "insert-on:contents-ref", "insert-on:contents-array", "insert-on:contents-refToArray", "insert-on:contents-missing",
+            "insert-on:shared-contents", "insert-on:undecodable", "insert-on:name-taken", "insert-on:shared-resources",
+            "addto-on:contents-ref", "addto-on:contents-array", "addto-on:contents-refToArray", "addto-on:contents-missing",
+            "addto-on:no-trailing-space"} | {"op:" + o for o in OPS}
     if not need <= cl and not chk.violations:
         raise vlib.ToolError("vacuous recorded set: no input of class %s" % sorted(need - cl))
     chk.extra["input_classes"] = sorted(c for c in cl if not c.startswith("op:"))
